@@ -38,16 +38,17 @@ IO_PREFIXES = ('from_', 'to_', 'read', 'write', '_build_frame', '_payload')
 IO_MODULES = ('frame', 'series', 'store', 'store_zip', 'store_sqlite', 'store_hdf5', 'store_xlsx', 'store_client_mixin', 'bus', 'batch', 'quilt', 'container_util', 'util')
 
 
-def forwarding(ctx: Ctx, modules: tp.Sequence[str] = IO_MODULES, prefixes: tp.Sequence[str] = IO_PREFIXES, suffix: str = 'io') -> None:
+def forwarding(ctx: Ctx, modules: tp.Optional[tp.Sequence[str]] = IO_MODULES, prefixes: tp.Sequence[str] = IO_PREFIXES, suffix: str = 'io', floor: int = 150,
+               what: str = 'import / export / store entry point') -> None:
     R = f'I.same-name-forwarding[{suffix}]'
-    ctx.rule(R, 'in every import / export / store entry point, each call to a resolved callee that accepts a parameter with the name of one of the '
+    ctx.rule(R, f'in every {what} (functions named {"/".join(prefixes[:6])}...), each call to a resolved callee that accepts a parameter with the name of one of the '
              'function\'s own parameters passes that parameter on (by that keyword, by position, or inside **kwargs); the confirmed exceptions are '
-             'listed one by one with their reason — an option that is not forwarded is silently ignored on that path', floor=150)
+             'listed one by one with their reason — an option that is not forwarded is silently ignored on that path', floor=floor)
     prog = ctx.prog
     res = Resolver(prog)
     n = 0
     for f in prog.top_funcs():
-        if f.module.short not in modules or not f.name.startswith(tuple(prefixes)):
+        if (modules is not None and f.module.short not in modules) or not f.name.startswith(tuple(prefixes)):
             continue
         own = [p for p in (f.params[1:] if f.cls is not None and f.params and f.params[0] in ('self', 'cls') else f.params)]
         if not own:
@@ -81,7 +82,7 @@ def forwarding(ctx: Ctx, modules: tp.Sequence[str] = IO_MODULES, prefixes: tp.Se
                     else:
                         ctx.bad(R, g, c, f'`{call_name(c)}` accepts `{prm}` but {f.name} does not pass its own `{prm}` on: the callee falls back to its default and the '
                                 'caller\'s option is silently ignored on this path', key=key)
-    ctx.require(n >= 150, 'same-name forwarding sites in the import / export entry points')
+    ctx.require(n >= floor, f'same-name forwarding sites in the {what}s')
 
 
 def _nested(f: FuncInfo) -> tp.Iterator[FuncInfo]:
